@@ -14,6 +14,8 @@ import Model.StatsReports
 import Proofs.StatsReports
 import Model.StatsSources
 import Proofs.StatsSources
+import Model.StatsCompile
+import Proofs.StatsCompile
 
 open Stats
 
@@ -451,6 +453,48 @@ theorem text_sources {α : Type} [NumOps α] (raw : Raw α) (l : GLabel) (v : GV
 
 /-- the words `short_summary` / `__str__` use are pairwise different -/
 theorem text_labels_distinct : (GLabel.all.map GLabel.textLabel).Nodup := by decide
+
+/-! ### compiled table over entries with an error path (unreadable pickle files) -/
+
+/-- **Column k depends on entry k only** (and on the row label): in the table compiled from a
+dictionary of results objects, readable and unreadable pickle files — in any order — the cell of
+row `l` in column `k` is the last assignment to `l` made from entry `k`; two dictionaries that
+agree on entry `k` give the same cell, whatever precedes or follows. -/
+theorem compiled_column_local {α : Type} [NumOps α] (o : CompileOpts)
+    (es es' : List (Option (Raw α × Rep α))) (k : Nat) (hk : es[k]? = es'[k]?)
+    (l : RLabel) (cells cells' : List (Option (Cell α)))
+    (h : (l, cells) ∈ compileTableE o es) (h' : (l, cells') ∈ compileTableE o es') :
+    cells[k]? = cells'[k]? := by
+  rw [compileTableE_cell o es l cells h k, compileTableE_cell o es' l cells' h' k, hk]
+
+/-- **The column of an unreadable entry is empty**: nothing of another model is shown in it. -/
+theorem compiled_unreadable_empty {α : Type} [NumOps α] (o : CompileOpts)
+    (es : List (Option (Raw α × Rep α))) (k : Nat) (hk : es[k]? = some none)
+    (l : RLabel) (cells : List (Option (Cell α))) (h : (l, cells) ∈ compileTableE o es) :
+    cells[k]? = some none := by
+  rw [compileTableE_cell o es l cells h k, hk]
+  rfl
+
+/-- **A filled cell of a readable entry is the quantity its row label names for THAT model**
+(same guards as `table_labels_compiled`). -/
+theorem compiled_entries_labels {α : Type} [NumOps α] (o : CompileOpts)
+    (es : List (Option (Raw α × Rep α))) (k : Nat) (raw : Raw α) (r : Rep α)
+    (hk : es[k]? = some (some (raw, r)))
+    (hK : r.K = r.names.length) (hnd : r.names.Nodup)
+    (hstats : ∀ s ∈ o.statistics, ((generalStatistics raw).lookup s).isSome)
+    (l : RLabel) (cells : List (Option (Cell α))) (h : (l, cells) ∈ compileTableE o es)
+    (c : Cell α) (hc : cells[k]? = some (some c)) : l.meaning raw r = some c := by
+  rw [compileTableE_cell o es l cells h k, hk] at hc
+  simp only [Option.map_some, Option.some.injEq, entryColumn] at hc
+  exact compile_column_meaning o raw r hK hnd hstats l c (List.mem_reverse.mp (mem_of_lookup _ _ _ hc))
+
+/-- with readable entries only this is the table of `table_labels_compiled` -/
+theorem compiled_entries_all_readable {α : Type} [NumOps α] (o : CompileOpts) (models : List (Raw α × Rep α)) :
+    compileTableE o (models.map some) = compileTable o models :=
+  compileTableE_some o models
+
+/-- non-vacuity: an unreadable entry after a readable one -/
+example {α : Type} [NumOps α] (p : Raw α × Rep α) : ([some p, none] : List (Option (Raw α × Rep α)))[1]? = some none := rfl
 
 /-! ### likelihood-ratio test -/
 
